@@ -46,10 +46,13 @@ type c09Case struct {
 	Pattern string
 	Lists   bool  // repeated payload column sorting before the keys
 	Seeks   []int // path rows: forward seeks (distance in rows) interleaved with the reads
+	Nest    string // "" = one flat merge; otherwise the tree of merges, e.g. [[0,1],2,[3,[4,5]]]: inner
+	// lists are merged first (same options / comparator) and their result is an input of the enclosing merge
 
 	seekOut []c09Pos
 	seekEOF int
 	planReq string // request for the Lean mirror of the planner (set by c09Run)
+	factKey, factWhat string // a violated hypothesis of the planner theorems (set by c09Run)
 }
 
 func (c *c09Case) sortCols() int {
@@ -79,7 +82,11 @@ func (c *c09Case) canon() string {
 	for _, col := range c.Cols {
 		fmt.Fprintf(&sb, "col(opt=%v,desc=%v,nf=%v) ", col.Opt, col.Desc, col.NF)
 	}
-	fmt.Fprintf(&sb, "mcols=%d storage=%s pagebuf=%d batches=%v dedupe=%v path=%s lists=%v seeks=%v inputs=", c.MCols, c.Storage, c.PageBuf, c.Batches, c.Dedupe, c.Path, c.Lists, c.Seeks)
+	fmt.Fprintf(&sb, "mcols=%d storage=%s pagebuf=%d batches=%v dedupe=%v path=%s lists=%v seeks=%v ", c.MCols, c.Storage, c.PageBuf, c.Batches, c.Dedupe, c.Path, c.Lists, c.Seeks)
+	if c.Nest != "" {
+		fmt.Fprintf(&sb, "nest=%s ", c.Nest)
+	}
+	sb.WriteString("inputs=")
 	for i, in := range c.Inputs {
 		if i > 0 {
 			sb.WriteByte('/')
@@ -598,6 +605,123 @@ func c09TargetText(rg parquet.RowGroup, ncols int, off int) (string, bool) {
 	return sb.String(), true
 }
 
+// ---------------------------------------------------------------- nested merges
+
+// c09Tree is a tree of merges over the inputs of a case: a leaf names an input, an inner node is a
+// merge of its children whose result is an input of the enclosing merge.
+type c09Tree struct {
+	leaf int // >= 0: input index; -1: inner node
+	kids []*c09Tree
+}
+
+func (t *c09Tree) text() string {
+	if t.leaf >= 0 {
+		return strconv.Itoa(t.leaf)
+	}
+	parts := make([]string, len(t.kids))
+	for i, k := range t.kids {
+		parts[i] = k.text()
+	}
+	return "[" + strings.Join(parts, ",") + "]"
+}
+
+// c09ParseTree parses "[[0,1],2,[3,[4,5]]]"
+func c09ParseTree(s string) (*c09Tree, error) {
+	pos := 0
+	var node func() (*c09Tree, error)
+	node = func() (*c09Tree, error) {
+		if pos >= len(s) {
+			return nil, errors.New("nest: unexpected end")
+		}
+		if s[pos] == '[' {
+			pos++
+			t := &c09Tree{leaf: -1}
+			for {
+				if pos < len(s) && s[pos] == ']' {
+					pos++
+					return t, nil
+				}
+				if len(t.kids) > 0 {
+					if pos >= len(s) || s[pos] != ',' {
+						return nil, errors.New("nest: expected ','")
+					}
+					pos++
+				}
+				k, err := node()
+				if err != nil {
+					return nil, err
+				}
+				t.kids = append(t.kids, k)
+			}
+		}
+		st := pos
+		for pos < len(s) && s[pos] >= '0' && s[pos] <= '9' {
+			pos++
+		}
+		if st == pos {
+			return nil, errors.New("nest: expected an input index")
+		}
+		v, _ := strconv.Atoi(s[st:pos])
+		return &c09Tree{leaf: v}, nil
+	}
+	t, err := node()
+	if err != nil {
+		return nil, err
+	}
+	if pos != len(s) || t.leaf >= 0 {
+		return nil, errors.New("nest: not a list")
+	}
+	return t, nil
+}
+
+func (t *c09Tree) leaves(out []int) []int {
+	if t.leaf >= 0 {
+		return append(out, t.leaf)
+	}
+	for _, k := range t.kids {
+		out = k.leaves(out)
+	}
+	return out
+}
+
+// c09GenTree groups the inputs (in a random order) into a tree of depth <= 3 with at least one inner merge
+func c09GenTree(r *rand.Rand, k int) *c09Tree {
+	perm := r.Perm(k)
+	var build func(leaves []int, depth int) []*c09Tree
+	build = func(leaves []int, depth int) []*c09Tree {
+		var kids []*c09Tree
+		for i := 0; i < len(leaves); {
+			g := 1
+			if depth > 0 && len(leaves) > 1 {
+				g = 1 + r.Intn(min(4, len(leaves)-i))
+				if g == len(leaves) {
+					g--
+				}
+			}
+			if g >= 2 {
+				kids = append(kids, &c09Tree{leaf: -1, kids: build(leaves[i:i+g], depth-1)})
+			} else {
+				kids = append(kids, &c09Tree{leaf: leaves[i]})
+			}
+			i += g
+		}
+		return kids
+	}
+	for {
+		t := &c09Tree{leaf: -1, kids: build(perm, 2)}
+		inner := false
+		for _, kid := range t.kids {
+			inner = inner || kid.leaf < 0
+		}
+		if inner || k < 3 {
+			if !inner && k == 2 {
+				t = &c09Tree{leaf: -1, kids: []*c09Tree{{leaf: -1, kids: []*c09Tree{{leaf: perm[0]}, {leaf: perm[1]}}}}}
+			}
+			return t
+		}
+	}
+}
+
 func c09Run(c *c09Case) (out []c09Row, kind string, calls [][2]int, plan string, err error) {
 	defer func() {
 		if p := recover(); p != nil {
@@ -617,11 +741,106 @@ func c09Run(c *c09Case) (out []c09Row, kind string, calls [][2]int, plan string,
 		total += len(in)
 	}
 	msort := c09Sorting(c.Cols, c.sortCols())
+	opts := []parquet.RowGroupOption{schema}
+	if c.MCols > 0 || c.Dedupe {
+		so := []parquet.SortingOption{parquet.DropDuplicatedRows(c.Dedupe)}
+		if c.MCols > 0 {
+			so = append(so, parquet.SortingColumns(msort...))
+		}
+		opts = append(opts, parquet.SortingRowGroupConfig(so...))
+	}
+	var tree *c09Tree
+	if c.Nest != "" {
+		if tree, err = c09ParseTree(c.Nest); err != nil {
+			return nil, "", nil, "", err
+		}
+		seen := map[int]bool{}
+		for _, l := range tree.leaves(nil) {
+			if l >= len(rgs) || seen[l] {
+				return nil, "", nil, "", fmt.Errorf("nest %s does not partition %d inputs", c.Nest, len(rgs))
+			}
+			seen[l] = true
+		}
+		if len(seen) != len(rgs) {
+			return nil, "", nil, "", fmt.Errorf("nest %s does not partition %d inputs", c.Nest, len(rgs))
+		}
+	}
+	if c.Path == "readers" {
+		cmp := schema.Comparator(msort...)
+		var build func(t *c09Tree) parquet.RowReader
+		var closers []parquet.Rows
+		defer func() {
+			for _, rows := range closers {
+				rows.Close()
+			}
+		}()
+		build = func(t *c09Tree) parquet.RowReader {
+			if t.leaf >= 0 {
+				rows := rgs[t.leaf].Rows()
+				closers = append(closers, rows)
+				return rows
+			}
+			kids := make([]parquet.RowReader, len(t.kids))
+			for i, k := range t.kids {
+				kids[i] = build(k)
+			}
+			return parquet.MergeRowReaders(kids, cmp)
+		}
+		if tree == nil {
+			tree = &c09Tree{leaf: -1}
+			for i := range rgs {
+				tree.kids = append(tree.kids, &c09Tree{leaf: i})
+			}
+		}
+		rr := build(tree)
+		if c.Dedupe {
+			rr = parquet.DedupeRowReader(rr, cmp)
+		}
+		out, calls, err = c09Drain(c, rr, total)
+		return out, "readers", calls, "", err
+	}
+	// the inputs of the outermost merge; interleaved[i]: the rows of tops[i].Rows() do not come in the
+	// order of the pages of its column chunks (it is, or contains, the loser-tree merge of several inputs)
+	tops := rgs
+	interleaved := make([]bool, len(rgs))
+	if tree != nil {
+		var build func(t *c09Tree) (parquet.RowGroup, bool, error)
+		build = func(t *c09Tree) (parquet.RowGroup, bool, error) {
+			if t.leaf >= 0 {
+				return rgs[t.leaf], false, nil
+			}
+			kids := make([]parquet.RowGroup, len(t.kids))
+			il := false
+			for i, k := range t.kids {
+				rg, kil, e := build(k)
+				if e != nil {
+					return nil, false, e
+				}
+				kids[i], il = rg, il || kil
+			}
+			m, e := parquet.MergeRowGroups(kids, opts...)
+			if e != nil {
+				return nil, false, fmt.Errorf("inner MergeRowGroups: %w", e)
+			}
+			for _, sg := range parquet.VerifMergeSegments(m) {
+				il = il || sg[0] > 1
+			}
+			return m, il, nil
+		}
+		tops, interleaved = nil, nil
+		for _, k := range tree.kids {
+			rg, il, e := build(k)
+			if e != nil {
+				return nil, "", nil, "", e
+			}
+			tops, interleaved = append(tops, rg), append(interleaved, il)
+		}
+	}
 	c.planReq = ""
-	if !c.Dedupe && c.Path != "readers" {
-		parts := make([]string, len(rgs))
+	if !c.Dedupe {
+		parts := make([]string, len(tops))
 		ok := true
-		for i, rg := range rgs {
+		for i, rg := range tops {
 			off := 0
 			if c.Lists {
 				off = 1
@@ -629,6 +848,9 @@ func c09Run(c *c09Case) (out []c09Row, kind string, calls [][2]int, plan string,
 			parts[i], ok = c09TargetText(rg, c.sortCols(), off)
 			if !ok {
 				break
+			}
+			if interleaved[i] {
+				parts[i] += "~I"
 			}
 		}
 		if ok {
@@ -639,36 +861,17 @@ func c09Run(c *c09Case) (out []c09Row, kind string, calls [][2]int, plan string,
 			c.planReq = "merge.plan " + c09StrictCuts() + " " + c09SpecText(c.Cols[:c.sortCols()]) + " " + ts
 		}
 	}
-	if c.Path == "readers" {
-		readers := make([]parquet.RowReader, len(rgs))
-		for i, rg := range rgs {
-			rows := rg.Rows()
-			defer rows.Close()
-			readers[i] = rows
-		}
-		cmp := schema.Comparator(msort...)
-		rr := parquet.MergeRowReaders(readers, cmp)
-		if c.Dedupe {
-			rr = parquet.DedupeRowReader(rr, cmp)
-		}
-		out, calls, err = c09Drain(c, rr, total)
-		return out, "readers", calls, "", err
+	c.factKey, c.factWhat = "", ""
+	if total <= 6000 && (total+len(c.Batches))%2 == 0 {
+		c.factKey, c.factWhat = c09PlannerFacts(c, schema, msort, tops)
 	}
-	opts := []parquet.RowGroupOption{schema}
-	if c.MCols > 0 || c.Dedupe {
-		so := []parquet.SortingOption{parquet.DropDuplicatedRows(c.Dedupe)}
-		if c.MCols > 0 {
-			so = append(so, parquet.SortingColumns(msort...))
-		}
-		opts = append(opts, parquet.SortingRowGroupConfig(so...))
-	}
-	merged, e := parquet.MergeRowGroups(rgs, opts...)
+	merged, e := parquet.MergeRowGroups(tops, opts...)
 	if e != nil {
 		return nil, "", nil, "", fmt.Errorf("MergeRowGroups: %w", e)
 	}
 	kind = parquet.VerifMergeKind(merged)
 	var segs []string
-	for _, sg := range parquet.VerifMergeSegments(merged) {
+	for _, sg := range parquet.VerifMergeSegmentsOver(merged, tops) {
 		segs = append(segs, fmt.Sprintf("%d:%d", sg[0], sg[1]))
 	}
 	plan = "-"
@@ -723,6 +926,87 @@ func c09Run(c *c09Case) (out []c09Row, kind string, calls [][2]int, plan string,
 		return out, kind, calls, plan, nil
 	}
 	return nil, kind, nil, plan, fmt.Errorf("unknown path %q", c.Path)
+}
+
+// ---------------------------------------------------------------- hypotheses of the planner theorems
+
+// c09PlannerFacts checks, on the real inputs of the outermost merge, what the Lean theorems about the
+// planner assume of a row group: its range bounds every row its Rows() deliver (range validity:
+// PagesOk / CoveredBy behind rowGroupRange), and its cut lookups are conservative for the keys the
+// planner may ask about (the bounds of the row groups of the merge): every row at or after
+// cutAbove(key) is strictly after key, every row before cutBelow(key) strictly before. A row group
+// whose page index does not describe the order of its Rows() (a merged row group was one) fails here
+// whether or not a particular merge happens to come out unsorted.
+func c09PlannerFacts(c *c09Case, schema *parquet.Schema, msort []parquet.SortingColumn, tops []parquet.RowGroup) (key, what string) {
+	cmp := schema.Comparator(msort...)
+	type bound struct{ lo, hi parquet.Row }
+	bounds := make([]*bound, len(tops))
+	for i, rg := range tops {
+		if rg.NumRows() == 0 {
+			continue
+		}
+		lo, hi, err := parquet.VerifRowGroupRange(rg, schema, msort)
+		if err == nil {
+			bounds[i] = &bound{lo, hi}
+		}
+	}
+	for i, rg := range tops {
+		n := int(rg.NumRows())
+		if bounds[i] == nil || n > 5000 {
+			continue
+		}
+		var rows []parquet.Row
+		rr := rg.Rows()
+		buf := make([]parquet.Row, 64)
+		for {
+			m, err := rr.ReadRows(buf)
+			for _, row := range buf[:m] {
+				rows = append(rows, row.Clone())
+			}
+			if err != nil {
+				break
+			}
+		}
+		rr.Close()
+		if len(rows) != n {
+			continue // reported by the main oracle
+		}
+		for r, row := range rows {
+			if cmp(bounds[i].lo, row) > 0 || cmp(row, bounds[i].hi) > 0 {
+				return "planner-range-excludes-row", fmt.Sprintf("input %d of the outermost merge (%s, %d rows): row %d lies outside the range rowGroupRangeOfSortedColumns computed for it", i, parquet.VerifMergeKind(rg), n, r)
+			}
+		}
+		above, below := parquet.VerifCutLookups(rg, schema, msort)
+		if above == nil || below == nil {
+			continue
+		}
+		for j, b := range bounds {
+			if b == nil {
+				continue
+			}
+			for side, k := range []parquet.Row{b.lo, b.hi} {
+				if a := int(above(k)); a < 0 || a > n {
+					return "planner-cut-out-of-range", fmt.Sprintf("input %d: cutAbove(bound %d/%d) = %d of %d rows", i, j, side, a, n)
+				} else {
+					for r := a; r < n; r++ {
+						if cmp(rows[r], k) <= 0 {
+							return "planner-cutabove-not-conservative", fmt.Sprintf("input %d (%d rows): cutAbove(bound %d/%d) = %d but row %d is not after the key", i, n, j, side, a, r)
+						}
+					}
+				}
+				if bl := int(below(k)); bl < 0 || bl > n {
+					return "planner-cut-out-of-range", fmt.Sprintf("input %d: cutBelow(bound %d/%d) = %d of %d rows", i, j, side, bl, n)
+				} else {
+					for r := 0; r < bl; r++ {
+						if cmp(rows[r], k) >= 0 {
+							return "planner-cutbelow-not-conservative", fmt.Sprintf("input %d (%d rows): cutBelow(bound %d/%d) = %d but row %d is not before the key", i, n, j, side, bl, r)
+						}
+					}
+				}
+			}
+		}
+	}
+	return "", ""
 }
 
 // ---------------------------------------------------------------- L1 oracle
@@ -854,10 +1138,15 @@ func c09Check(ctx *core.Ctx, c *c09Case, p *c09Pending) {
 		return map[string]any{"case": cs, "plan": kind, "output": strings.Join(o, " "), "calls": fmt.Sprint(calls[:min(len(calls), 50)])}
 	}
 	sig := fmt.Sprintf(" path=%s", c.Path)
+	if c.Nest != "" {
+		// a merged row group (or merged reader) is itself an input of a merge
+		sig = " nested" + sig
+		ctx.Hist("nest", c09NestShape(c.Nest))
+	}
 	// L2: the plan (segments of row groups) against the Lean mirror of rowGroupRangeOfSortedColumns +
 	// overlappingRowGroups; one key column (nullable or not), single-page row groups (Buffers), no
 	// dedupe wrappers
-	if p != nil && err == nil && c.Storage == "buffer" && len(c.Cols) == 1 && !c.Dedupe && c.Path != "readers" && len(c.Inputs) > 0 {
+	if p != nil && err == nil && c.Storage == "buffer" && len(c.Cols) == 1 && !c.Dedupe && c.Path != "readers" && len(c.Inputs) > 0 && c.Nest == "" {
 		nf := "0"
 		if c.Cols[0].NF {
 			nf = "1"
@@ -893,6 +1182,10 @@ func c09Check(ctx *core.Ctx, c *c09Case, p *c09Pending) {
 					"case": canon[:min(len(canon), 3000)], "request": req[:min(len(req), 6000)], "impl": want, "model": ans})
 			}
 		})
+	}
+	if c.factKey != "" {
+		// obligation: an assumed hypothesis of the planner theorems does not hold of a real row group
+		ctx.Fail("L2", c.factKey, c.factWhat, map[string]any{"case": canon[:min(len(canon), 3000)], "plan": kind})
 	}
 	if err != nil && strings.HasPrefix(err.Error(), "hang:") {
 		ctx.Fail("L1", "seek-forward-beyond-buffer-hangs plan="+kind, "SeekToRow forward by more than the read buffer, then ReadRows: "+err.Error(), detail())
@@ -1239,6 +1532,113 @@ func c09GenCompoundRefineCase(r *rand.Rand) *c09Case {
 	c.Lists = r.Intn(3) == 0
 	c09GenSeeks(r, c)
 	return c
+}
+
+// nested merges: the result of a merge is an input of another merge (MergeRowGroups over merged row
+// groups, MergeRowReaders over merged readers). Pattern "island": one wide input and narrow inputs
+// inside its range, so that an inner merge covers a wide range while its members' pages, chunk after
+// chunk, are not in key order.
+func c09GenNestedCase(r *rand.Rand, big bool) *c09Case {
+	var c *c09Case
+	if big {
+		c = c09GenRefineCase(r)
+		if r.Intn(2) == 0 {
+			c = c09GenCompoundRefineCase(r)
+		}
+		c.Seeks = nil
+	} else {
+		c = &c09Case{}
+		ncols := 1 + r.Intn(4)/3
+		nullable := r.Intn(4) == 0
+		for j := 0; j < ncols; j++ {
+			col := c09Col{Desc: r.Intn(3) == 0}
+			if nullable && r.Intn(3) != 0 {
+				col.Opt, col.NF = true, r.Intn(2) == 0
+			}
+			c.Cols = append(c.Cols, col)
+		}
+		c.MCols = []int{0, 1, ncols, ncols}[r.Intn(4)]
+		k := 2 + r.Intn(6)
+		c.Pattern = []string{"island", "island", "nested", "staggered", "random", "touching", "identical"}[r.Intn(7)]
+		c.Storage = []string{"buffer", "buffer", "file", "file", "mixed"}[r.Intn(5)]
+		c.PageBuf = []int{1, 16, 64, 256, 4096}[r.Intn(5)]
+		c.Batches = c09GenBatches(r)
+		c.Dedupe = r.Intn(5) == 0
+		c.Path = []string{"rows", "rows", "readers", "write", "copyrows"}[r.Intn(5)]
+		lens := make([]int, k)
+		for i := range lens {
+			lens[i] = c09GenLen(r, k <= 3)
+			if c.Pattern == "island" && lens[i] == 0 {
+				lens[i] = 3
+			}
+		}
+		nullRate := 0
+		if nullable {
+			nullRate = []int{4, 10, 40}[r.Intn(3)]
+		}
+		if c.Pattern == "island" {
+			c.Inputs = c09GenIslands(r, c.Cols, k, lens, nullRate)
+		} else {
+			c.Inputs = c09GenInputs(r, c.Cols, k, c.Pattern, lens, nullRate)
+		}
+		c.Lists = r.Intn(4) == 0
+	}
+	c.Pattern = "nested-" + c.Pattern
+	c.Nest = c09GenTree(r, len(c.Inputs)).text()
+	return c
+}
+
+// input 0 spans [0, 100*k]; input i > 0 is an island [100*i, 100*i+w] inside it
+func c09GenIslands(r *rand.Rand, cols []c09Col, k int, lens []int, nullRate int) [][]c09Row {
+	inputs := make([][]c09Row, k)
+	for i := 0; i < k; i++ {
+		lo, hi := int64(0), int64(100*k)
+		if i > 0 {
+			lo = int64(100*i) + r.Int63n(20)
+			hi = lo + r.Int63n(60)
+		}
+		rows := make([]c09Row, lens[i])
+		for j := range rows {
+			var row c09Row
+			for cidx, col := range cols {
+				if col.Opt && nullRate > 0 && r.Intn(nullRate) == 0 {
+					row.Null[cidx] = true
+					continue
+				}
+				if cidx == 0 {
+					row.K[cidx] = lo + r.Int63n(hi-lo+1)
+				} else {
+					row.K[cidx] = r.Int63n(4)
+				}
+			}
+			rows[j] = row
+		}
+		if i == 0 && len(rows) >= 2 && !rows[0].Null[0] && !rows[1].Null[0] {
+			rows[0].K[0], rows[1].K[0] = 0, int64(100*k) // the wide input really spans the whole range
+		}
+		sort.SliceStable(rows, func(a, b int) bool { return c09Cmp(cols, len(cols), rows[a], rows[b]) < 0 })
+		for j := range rows {
+			rows[j].Inp, rows[j].Seq = int32(i), int32(j)
+		}
+		inputs[i] = rows
+	}
+	return inputs
+}
+
+// shape of a nest for the histograms: depth and number of inner merges
+func c09NestShape(nest string) string {
+	depth, maxd, inner := 0, 0, -1
+	for _, ch := range nest {
+		switch ch {
+		case '[':
+			depth++
+			inner++
+			maxd = max(maxd, depth)
+		case ']':
+			depth--
+		}
+	}
+	return fmt.Sprintf("depth=%d inner=%d", maxd, min(inner, 4))
 }
 
 // ---------------------------------------------------------------- L2: the Lean mirror
@@ -1676,42 +2076,14 @@ func c09CmpChecks(ctx *core.Ctx, r *rand.Rand, d *drv.Driver, p *c09Pending, n i
 
 // ---------------------------------------------------------------- sources answering (0, nil)
 
-// A RowReader may return fewer rows than requested with a nil error; zero rows is the extreme.
-// bufferedRowReader.read takes (0, nil) for a refill and head() then re-reads the first row of the
-// previous fill. Outside the property as stated (sorted inputs, any batch size): recorded as an
-// observation; the two-reader behaviour is compared with the as-is mirror (MergeZero.lean).
+// A RowReader may return fewer rows than requested with a nil error (row.go: "The application is
+// expected to handle the case where ReadRows returns less rows than requested and no error"); zero
+// rows is the extreme of the "source chunkings" the property quantifies over. The merge readers must
+// treat a (0, nil) answer as "read again" (bufferedRowReader.read retries, mirror Buf.readE in
+// MergeRetry.lean): the property's oracle applies at L1 and the run must equal the main mirror fed
+// with the refill stream without its zero entries (theorem readE_eq_read_squash). MergeZero.lean keeps
+// the mirror of the code before the retry existed (witness of the re-emitted stale row).
 func c09ZeroChecks(ctx *core.Ctx, r *rand.Rand, d *drv.Driver, p *c09Pending, n int) {
-	// fact probe: does bufferedRowReader.read retry on (0, nil)? (proposed_fixes/C09_zero_row_read.diff)
-	// If it does, (0, nil) answers are invisible: the run must equal the main mirror without the zero
-	// entries and the oracle applies at L1; if not, the as-is mirror (MergeZero.lean) is compared.
-	retries := func() (ok bool) {
-		defer func() {
-			if recover() != nil {
-				ok = false
-			}
-		}()
-		mk := func(keys []int64, inp int32, sizes []int) parquet.RowReader {
-			rs := make([]parquet.Row, len(keys))
-			for s, key := range keys {
-				rs[s] = c09ToRow(c09L2Cols, c09Row{K: [3]int64{key}, Inp: inp, Seq: int32(s)})
-			}
-			return &c09ChunkReader{rows: rs, sizes: sizes, zeroOK: true}
-		}
-		rr := parquet.MergeRowReaders([]parquet.RowReader{mk([]int64{1, 3, 5, 7}, 0, []int{2, 0, 2}), mk([]int64{2, 4, 6, 8}, 1, []int{2, 2, 2})}, c09L2Compare)
-		buf := make([]parquet.Row, 10)
-		var got []int64
-		for calls := 0; calls < 20; calls++ {
-			m, e := rr.ReadRows(buf)
-			for _, row := range buf[:m] {
-				got = append(got, row[0].Int64())
-			}
-			if e != nil {
-				break
-			}
-		}
-		return fmt.Sprint(got) == "[1 2 3 4 5 6 7 8]"
-	}()
-	ctx.Hist("zero-reads-retried-by-library", strconv.FormatBool(retries))
 	for i := 0; i < n; i++ {
 		k := 2
 		if i%4 == 3 {
@@ -1726,6 +2098,16 @@ func c09ZeroChecks(ctx *core.Ctx, r *rand.Rand, d *drv.Driver, p *c09Pending, n 
 			}
 			if k == 3 && j == 0 && r.Intn(2) == 0 {
 				sizes[0] = 0
+			}
+			if r.Intn(40) == 0 {
+				// the longest run of (0, nil) answers read() sits out: 1 read + 100 retries, the last one delivers
+				at := r.Intn(len(sizes) + 1)
+				sizes = append(sizes[:at:at], append(make([]int, 100), append([]int{1 + r.Intn(3)}, sizes[at:]...)...)...)
+				for at > 0 && sizes[at-1] == 0 { // keep the run at exactly 100
+					sizes[at-1] = 1
+					at--
+				}
+				ctx.Hist("zero-reads-run", "100")
 			}
 			c.refills = append(c.refills, sizes)
 		}
@@ -1783,11 +2165,7 @@ func c09ZeroChecks(ctx *core.Ctx, r *rand.Rand, d *drv.Driver, p *c09Pending, n 
 			return errors.New("no io.EOF")
 		}()
 		if err != nil {
-			if retries {
-				ctx.Fail("L1", "zero-row-read error "+c09ErrClass(err), "MergeRowReaders over a source that answers (0, nil): "+err.Error(), map[string]any{"case": text})
-			} else {
-				ctx.Observe(fmt.Sprintf("zero-row-read readers=%d %s", min(k, 3), c09ErrClass(err)), "MergeRowReaders over a source that answers (0, nil): "+err.Error(), map[string]any{"case": text})
-			}
+			ctx.Fail("L1", fmt.Sprintf("zero-row-read readers=%d error %s", min(k, 3), c09ErrClass(err)), "MergeRowReaders over a source that answers (0, nil): "+err.Error(), map[string]any{"case": text})
 			continue
 		}
 		oc := &c09Case{Cols: c09L2Cols, MCols: 1, Path: "readers"}
@@ -1799,38 +2177,17 @@ func c09ZeroChecks(ctx *core.Ctx, r *rand.Rand, d *drv.Driver, p *c09Pending, n 
 			oc.Inputs = append(oc.Inputs, in)
 		}
 		if key, what := c09Oracle(oc, rows); key != "" {
-			if retries {
-				ctx.Fail("L1", "zero-row-read "+key, "MergeRowReaders over a source that answers (0, nil): "+what, map[string]any{"case": text, "output": strings.Join(batches, "|")})
-			} else {
-				ctx.Observe(fmt.Sprintf("zero-row-read readers=%d %s", min(k, 3), key), "MergeRowReaders over a source that answers (0, nil): "+what, map[string]any{"case": text, "output": strings.Join(batches, "|")})
-			}
+			ctx.Fail("L1", fmt.Sprintf("zero-row-read readers=%d %s", min(k, 3), key), "MergeRowReaders over a source that answers (0, nil): "+what, map[string]any{"case": text, "output": strings.Join(batches, "|")})
 		}
-		if retries {
-			// the library skips (0, nil) answers: same as the main mirror without the zero entries
-			nz := make([][]int, len(c.refills))
-			for j, sz := range c.refills {
-				for _, x := range sz {
-					if x != 0 {
-						nz[j] = append(nz[j], x)
-					}
-				}
-			}
-			req := fmt.Sprintf("merge.run %s %s %s", c09Lists(c.keys, func(x int64) string { return strconv.FormatInt(x, 10) }), core.JoinInts(used), c09Lists(nz, strconv.Itoa))
+		{
+			// (0, nil) answers are skipped: same as the main mirror on the streams without their zero
+			// entries (the driver squashes them, MergeRetry.lean)
+			req := fmt.Sprintf("merge.runr %s %s %s", c09Lists(c.keys, func(x int64) string { return strconv.FormatInt(x, 10) }), core.JoinInts(used), c09Lists(c.refills, strconv.Itoa))
 			want := "ok 1 " + strings.Join(batches, "|")
 			p.reqs = append(p.reqs, req)
 			p.pend = append(p.pend, func(ans string) {
 				if i := strings.LastIndexByte(ans, ' '); i < 0 || ans[:i] != want {
 					ctx.Fail("L2", "merge-zero-read-skipped-mirror", "MergeRowReaders over (0, nil) sources differs from the mirror run without the zero entries", map[string]any{"case": text, "request": req, "impl": want, "model": ans})
-				}
-			})
-			p.flush(ctx, d, false)
-		} else if k == 2 {
-			req := fmt.Sprintf("merge.runz %s %s %s", c09Lists(c.keys, func(x int64) string { return strconv.FormatInt(x, 10) }), core.JoinInts(used), c09Lists(c.refills, strconv.Itoa))
-			want := "ok " + strings.Join(batches, "|")
-			p.reqs = append(p.reqs, req)
-			p.pend = append(p.pend, func(ans string) {
-				if ans != want {
-					ctx.Fail("L2", "merge2-zero-read-mirror", "mergedRowReader2 over (0, nil) sources differs from the as-is Lean mirror", map[string]any{"case": text, "request": req, "impl": want, "model": ans})
 				}
 			})
 			p.flush(ctx, d, false)
@@ -1951,7 +2308,7 @@ func c09DedupeChecks(ctx *core.Ctx, r *rand.Rand, d *drv.Driver, p *c09Pending, 
 
 // ---------------------------------------------------------------- replay of a recorded case
 
-var c09CanonRe = regexp.MustCompile(`^((?:col\(opt=\w+,desc=\w+,nf=\w+\) )+)mcols=(\d+) storage=(\w+) pagebuf=(\d+) batches=\[([\d ]*)\] dedupe=(\w+) path=(\w+) lists=(\w+) seeks=\[([\d ]*)\] inputs=(.*)$`)
+var c09CanonRe = regexp.MustCompile(`^((?:col\(opt=\w+,desc=\w+,nf=\w+\) )+)mcols=(\d+) storage=(\w+) pagebuf=(\d+) batches=\[([\d ]*)\] dedupe=(\w+) path=(\w+) lists=(\w+) seeks=\[([\d ]*)\] (?:nest=(\S+) )?inputs=(.*)$`)
 
 // c09ParseCanon rebuilds a case from its canonical text (the "case" field of a failure detail)
 func c09ParseCanon(text string) (*c09Case, error) {
@@ -1973,7 +2330,13 @@ func c09ParseCanon(text string) (*c09Case, error) {
 		v, _ := strconv.Atoi(f)
 		c.Seeks = append(c.Seeks, v)
 	}
-	for i, in := range strings.Split(m[10], "/") {
+	c.Nest = m[10]
+	if c.Nest != "" {
+		if _, err := c09ParseTree(c.Nest); err != nil {
+			return nil, err
+		}
+	}
+	for i, in := range strings.Split(m[11], "/") {
 		var rows []c09Row
 		if in != "-" {
 			for j, rt := range strings.Split(in, ",") {
@@ -1999,7 +2362,7 @@ func c09ParseCanon(text string) (*c09Case, error) {
 // ---------------------------------------------------------------- entry point
 
 func RunC09(ctx *core.Ctx) {
-	ctx.SetRule("k in 0..9 sorted inputs (empty, disjoint, touching, nested, identical, staggered, random key ranges; duplicates within and across inputs; asc/desc; nullable keys nulls first/last; one to three key columns, merge by a prefix or by all; optionally a repeated payload column (lists of 0-4 values) that sorts before the key columns by name; forward SeekToRow histories on the merged rows; large compound-key files whose first key column is shared by many rows across row-group and page boundaries) as sorted Buffers and as files (PageBufferSize 1..1MiB, with page index) x read batch sizes 1..300 x MergeRowGroups.Rows / MergeRowReaders / Writer.WriteRowGroup / CopyRows, with and without DropDuplicatedRows; chunked-source MergeRowReaders runs compared call by call with the Lean mirror; runLength and DedupeRowReader against mirror and spec; exhaustive small scope. Distinct by canonical case text, non-trivial = at least two non-empty inputs (merges) / at least two rows or batches (runLength, dedupe)")
+	ctx.SetRule("k in 0..9 sorted inputs (empty, disjoint, touching, nested, identical, staggered, random key ranges; duplicates within and across inputs; asc/desc; nullable keys nulls first/last; one to three key columns, merge by a prefix or by all; optionally a repeated payload column (lists of 0-4 values) that sorts before the key columns by name; forward SeekToRow histories on the merged rows; large compound-key files whose first key column is shared by many rows across row-group and page boundaries) as sorted Buffers and as files (PageBufferSize 1..1MiB, with page index) x read batch sizes 1..300 x MergeRowGroups.Rows / MergeRowReaders / Writer.WriteRowGroup / CopyRows, with and without DropDuplicatedRows; trees of nested merges (the result of a merge as an input of another, depth <= 3, MergeRowGroups and MergeRowReaders); chunked-source MergeRowReaders runs, also with sources answering (0, nil), compared call by call with the Lean mirror; runLength and DedupeRowReader against mirror and spec; exhaustive small scope. Distinct by canonical case text, non-trivial = at least two non-empty inputs (merges) / at least two rows or batches (runLength, dedupe)")
 
 	// F12 as a fixed corpus-like case so that it is reported deterministically
 	fixed := []*c09Case{
@@ -2021,6 +2384,21 @@ func RunC09(ctx *core.Ctx) {
 		for _, path := range []string{"rows", "write"} {
 			fixed = append(fixed, &c09Case{Cols: []c09Col{{Opt: true}}, MCols: 0, Storage: "mixed", PageBuf: 256, Batches: []int{100}, Path: path,
 				Pattern: "fixed-cuts", Inputs: [][]c09Row{mk(0, 3544, 2237, 44), mk(1, 43, 1736, 38)}})
+		}
+	}
+	// the minimal nested merge: Merge(Merge(A[0..100], B[50..60]), C[70..80]); the inner merged row group
+	// lists its pages chunk after chunk (A's, then B's)
+	{
+		mk := func(inp int32, keys ...int64) []c09Row {
+			var rows []c09Row
+			for i, k := range keys {
+				rows = append(rows, c09Row{K: [3]int64{k}, Inp: inp, Seq: int32(i)})
+			}
+			return rows
+		}
+		for _, path := range []string{"rows", "write"} {
+			fixed = append(fixed, &c09Case{Cols: []c09Col{{}}, MCols: 1, Storage: "buffer", PageBuf: 4096, Batches: []int{7}, Path: path, Pattern: "fixed-nested",
+				Nest: "[[0,1],2]", Inputs: [][]c09Row{mk(0, 0, 10, 20, 30, 40, 50, 60, 70, 80, 90, 100), mk(1, 50, 55, 60), mk(2, 70, 75, 80)}})
 		}
 	}
 	for _, c := range fixed {
@@ -2062,6 +2440,8 @@ func RunC09(ctx *core.Ctx) {
 	nL1 := ctx.Scale(4000, 100000)
 	nRefine := ctx.Scale(40, 600)
 	nCompound := ctx.Scale(70, 1000)
+	nNested := ctx.Scale(1500, 30000)
+	nNestedBig := ctx.Scale(16, 300)
 	nL2 := ctx.Scale(6000, 150000)
 	nL2C := ctx.Scale(2500, 50000)
 	for w := 0; w < workers; w++ {
@@ -2084,6 +2464,14 @@ func RunC09(ctx *core.Ctx) {
 			}
 			for i := w; i < nCompound; i += workers {
 				c09Check(ctx, c09GenCompoundRefineCase(r), p)
+			}
+			rn := ctx.Rand(fmt.Sprintf("c09-nested-%d", w))
+			for i := w; i < nNested; i += workers {
+				c09Check(ctx, c09GenNestedCase(rn, false), p)
+				p.flush(ctx, d, false)
+			}
+			for i := w; i < nNestedBig; i += workers {
+				c09Check(ctx, c09GenNestedCase(rn, true), p)
 			}
 			p.flush(ctx, d, true)
 			r2 := ctx.Rand(fmt.Sprintf("c09-l2-%d", w))
